@@ -244,6 +244,22 @@ Section Body.
     - rewrite (oks_all_ok _ A), !map_map. apply map_ext. intros ve. destruct (from_variant vc ve); reflexivity.
   Qed.
 
+  (** ... and when it fails, the error bundles, in source order, the error of every failing variant,
+      each located under its variant's name *)
+  Definition variant_errs (vc : vconv) (vs : list velem) : list err :=
+    flat_map (fun ve => match from_variant vc ve with Err x => [at_ (ve_ident ve) x] | _ => [] end) vs.
+
+  Theorem data_try_from_enum_err vc fc vs e :
+    data_try_from vc fc (DEnum vs) = Err e ->
+    variant_errs vc vs <> [] /\ multiple (variant_errs vc vs) = POk e.
+  Proof.
+    cbn [Outer.data_try_from]. intros H. apply accumulate_err in H as [NE [M _]].
+    assert (E : errs_of (map (fun ve : velem => map_err (at_ (ve_ident ve)) (from_variant vc ve)) vs) = variant_errs vc vs).
+    { unfold errs_of, variant_errs. rewrite flat_map_concat_map, map_map, <- flat_map_concat_map.
+      apply flat_map_ext. intros ve. destruct (from_variant vc ve); reflexivity. }
+    rewrite E in *. split; assumption.
+  Qed.
+
   Theorem data_try_from_struct_ok vc fc style fs v :
     data_try_from vc fc (DStruct style fs) = Ok v ->
     exists vals, v = VVariant "Struct" [("0", fields_value style vals)]
@@ -252,6 +268,28 @@ Section Body.
     cbn [Outer.data_try_from]. destruct (fields_try_from fc style fs) as [x|e|m] eqn:F; try discriminate.
     intros [= <-]. apply fields_try_from_ok in F as [vals [-> [L _]]]. eauto.
   Qed.
+
+  (** [ast::Generics]: one entry per parameter, in order; every failing parameter is reported *)
+  Notation from_generics := (from_generics pf reparse reparse_arr reparse_preds sugg sim interp_with interp_fn interp_attrs).
+  Notation param_result := (param_result pf reparse reparse_arr reparse_preds sugg sim interp_with interp_fn interp_attrs).
+
+  Theorem generics_mirror_ok tc g v :
+    from_generics (GcMirror tc) g = Ok v ->
+    exists vals, v = VStruct [("params", VList vals); ("where_clause", opt_toks (g_where g))]
+                 /\ List.length vals = List.length (g_params g)
+                 /\ map Some vals = map val_of (map (param_result tc) (g_params g)).
+  Proof.
+    cbn [Outer.from_generics]. intros H. apply accumulate_ok in H as [A ->].
+    eexists. split; [reflexivity|]. split.
+    - rewrite oks_length_all_ok by assumption. apply map_length.
+    - now apply oks_all_ok.
+  Qed.
+
+  Theorem generics_mirror_err tc g e :
+    from_generics (GcMirror tc) g = Err e ->
+    let es := errs_of (map (param_result tc) (g_params g)) in
+    es <> [] /\ multiple es = POk e /\ len e = sumN (map len es).
+  Proof. cbn [Outer.from_generics]. apply accumulate_err. Qed.
 End Body.
 
 (** ** C16: magic members are projections of the input element *)
